@@ -191,8 +191,12 @@ func opVersionToSpan(typ tokType, op string, lo *Version) (span, error) {
 			// of 0.0.0 are below 0.0.0-pre.
 			return span{rank: empty}, nil
 		}
-		for i, val := range hi.num {
-			if val == wildcard {
+		// Nothing after a wildcard counts: <1.x.3 is <1.0.0.
+		for i, seen := 0, false; i < len(hi.num); i++ {
+			if hi.num[i] == wildcard {
+				seen = true
+			}
+			if seen {
 				hi.setNum(i, 0)
 			}
 		}
